@@ -390,6 +390,7 @@ def regenerate(repo: Path) -> dict:
     try:
         sks, missing = talgo.analyse(repo)
         coq.write_if_changed(GEN / "Algos.v", talgo.emit_algos(sks, missing))
+        coq.write_if_changed(GEN / "ElitProgs.v", talgo.emit_progs(sks))
         status["algos"] = "regenerated" if not missing else "regenerated (missing: " + ", ".join(missing) + ")"
         status["_skeletons"] = {s["name"]: {"prov": talgo.conforms_prov(s), "elitist": talgo.is_elitist(s), "size_regular": talgo.is_size_regular(s),
                                            "raw_sites": s["raw_sites"], "core_writes": s["core_writes"], "objective_calls": s["objective_calls"],
